@@ -378,6 +378,37 @@ def _plus_one(lo: ast.AST, hi: ast.AST) -> bool:
                                          and isinstance(lo.value, int) and hi.value == lo.value + 1)
 
 
+def _pair_role(e: ast.AST, arrs: Set[str], fnode: ast.AST) -> Optional[Tuple[str, str, int]]:
+    """`e` is a name walking c[:-1] ('lo') or c[1:] ('hi') of a cumulative-length array c in an enclosing loop
+    (for a, b in zip(c[:-1], c[1:])): -> (c, role, id of the loop)"""
+    from .common import LoopElems
+    if not isinstance(e, ast.Name):
+        return None
+    p = parent(e)
+    loops = []
+    while p is not None and p is not fnode:
+        if isinstance(p, ast.For):
+            loops.append((p, p.target, p.iter))
+        if isinstance(p, (ast.ListComp, ast.GeneratorExp, ast.SetComp, ast.DictComp)):
+            for g in p.generators:
+                loops.append((g, g.target, g.iter))
+        p = parent(p)
+    for lp, tg, it in loops:
+        le = LoopElems(tg, it)
+        seq = le.elems.get(e.id)
+        if seq is None or not isinstance(seq, ast.Subscript) or norm(seq.value) not in arrs or not isinstance(seq.slice, ast.Slice):
+            continue
+        sl = seq.slice
+        if sl.step is not None:
+            return None
+        if sl.lower is None and sl.upper is not None and norm(sl.upper) == "-1":
+            return norm(seq.value), "lo", id(lp)
+        if sl.upper is None and sl.lower is not None and norm(sl.lower) == "1":
+            return norm(seq.value), "hi", id(lp)
+        return norm(seq.value), "other", id(lp)
+    return None
+
+
 @rule("R-CUMSLICE", floor=8)
 def r_cumslice(ctx: RuleCtx, col: Collector):
     """Design variables spread over several signals are addressed through a cumulative-length array c: every slice
@@ -395,6 +426,21 @@ def r_cumslice(ctx: RuleCtx, col: Collector):
                 lo = _index_of(n.lower, arrs) if n.lower is not None else None
                 hi = _index_of(n.upper, arrs) if n.upper is not None else None
                 if lo is None and hi is None:
+                    # consecutive entries walked in lockstep: for start, stop in zip(c[:-1], c[1:]): x[start:stop]
+                    plo = _pair_role(n.lower, arrs, f.node) if n.lower is not None else None
+                    phi = _pair_role(n.upper, arrs, f.node) if n.upper is not None else None
+                    if plo is None and phi is None:
+                        continue
+                    sub = parent(n)
+                    construct = stmt_key(sub) if isinstance(sub, ast.Subscript) else stmt_key(n)
+                    if plo is not None and phi is not None and plo[0] == phi[0] and plo[2] == phi[2] and \
+                            (plo[1], phi[1]) == ("lo", "hi") and n.step is None:
+                        col.ok(where_of(f), f.rel, line_of(n), construct, f"extent of one signal: consecutive entries of {plo[0]}")
+                    else:
+                        col.bad(where_of(f), f.rel, line_of(n), construct,
+                                f"slice bounds '{U(n.lower) if n.lower else ''}:{U(n.upper) if n.upper else ''}' are not the "
+                                f"consecutive entries (c[k], c[k+1]) of one cumulative-length array: entries of a neighbouring "
+                                f"signal are read or written")
                     continue
                 st = enclosing_stmt(n)
                 sub = parent(n)
@@ -451,6 +497,40 @@ def r_cumslice(ctx: RuleCtx, col: Collector):
             elif isinstance(n, ast.Subscript) and not isinstance(n.slice, ast.Slice):
                 inner = _index_of(n.slice, arrs)
                 if inner is None:
+                    pr = _pair_role(n.slice, arrs, f.node)
+                    if pr is None or isinstance(parent(n), ast.Subscript) and False:
+                        continue
+                    # scalar pick x[start]: only where the partner bound says the signal holds one variable
+                    from .common import dominating_tests
+                    cfg = ctx.flow.cfg(f)
+                    nd = cfg.node_of(n)
+                    tests = [(t, pol) for t, pol in dominating_tests(cfg, nd)] if nd is not None else []
+                    pp = parent(n)
+                    while pp is not None and not isinstance(pp, ast.stmt):
+                        if isinstance(pp, ast.IfExp):
+                            if any(y is n for y in ast.walk(pp.body)):
+                                tests.append((pp.test, True))
+                            elif any(y is n for y in ast.walk(pp.orelse)):
+                                tests.append((pp.test, False))
+                        pp = parent(pp)
+
+                    def len1(t):
+                        # hi - lo == 1 / hi == lo + 1 with hi, lo the lockstep partners of the same loop
+                        if not (isinstance(t, ast.Compare) and len(t.ops) == 1 and isinstance(t.ops[0], ast.Eq)):
+                            return False
+                        l, r = t.left, t.comparators[0]
+                        for a, b in ((l, r), (r, l)):
+                            if isinstance(a, ast.BinOp) and isinstance(a.op, ast.Sub) and norm(b) == "1":
+                                ph, pl = _pair_role(a.left, arrs, f.node), _pair_role(a.right, arrs, f.node)
+                                if ph and pl and ph[1] == "hi" and pl[1] == "lo" and ph[2] == pl[2] == pr[2] and norm(a.right) == norm(n.slice):
+                                    return True
+                        return False
+                    if pr[1] == "lo" and any(len1(t) and pol for t, pol in tests):
+                        col.ok(where_of(f), f.rel, line_of(n), stmt_key(n), "scalar pick under the length-1 guard")
+                    else:
+                        col.bad(where_of(f), f.rel, line_of(n), stmt_key(n),
+                                f"single element picked at {U(n.slice)} without the guard that this signal holds exactly "
+                                f"one variable")
                     continue
                 # scalar pick x[c[i]]
                 from .solver import guard_facts
